@@ -85,6 +85,12 @@ def refusals(name):
                 R.append(('bulk-set-callback-refuses@%d/%d' % (k, n), 0, ('setmulti', nm, [b'q%d' % j for j in range(n)]), 'cbfail%d' % k))
         R.append(('bulk-set-empty', 0, ('setmulti', nm, []), None))
         R.append(('section-call-on-value', 0, ('addtsec', nm, b'a'), None))
+        if name in ('pl', 'scl'):
+            # the variadic list calls on a list whose values a callback makes: whether they are refused is not described -
+            # but IF the call reports failure, the option is what it was
+            R.append(('list-set-if-refused', 0, ('setlist', nm, 'str', [b'x']), 'optional'))
+            R.append(('list-set-2-if-refused', 0, ('setlist', nm, 'str', [b'x', b'y']), 'optional'))
+            R.append(('list-append-if-refused', 0, ('addlist', nm, 'str', [b'x']), 'optional'))
         return R
     kind = {'i': 'int', 'il': 'int', 'n': 'int', 'f': 'float', 'fl': 'float', 'b': 'bool', 'bl': 'bool', 's': 'str', 'sl': 'str', 'si': 'int', 'ss': 'str'}.get(name)
     val = {'int': 7, 'float': 2.5, 'bool': 1, 'str': b'v'}.get(kind)
@@ -194,6 +200,9 @@ def shard(sh):
         st.outcome('%s %s' % (rc, snaps[0]))
         st.nontriv('%s|%s' % (name, snaps[0]))
         if not failed:
+            if label.endswith('-if-refused'):
+                st.unspec += 1
+                continue
             st.violation('not-refused:%s' % label.split('@')[0], script, 'failure return (%s)' % label, rl)
             continue
         if snaps[0] != snaps[1]:
